@@ -742,6 +742,18 @@ loop:
 				switch fr.Type() {
 				case FrameSettings:
 					st := fr.Body().(*Settings)
+
+					// The encoder is this goroutine's. Resizing it from the
+					// read loop raced with the header blocks being encoded
+					// here, and could shrink the table half way through one.
+					if st.hasTableSize {
+						if verifOn {
+							vAccess(sc, "enc", "sl")
+						}
+
+						sc.enc.SetMaxTableSize(st.tableSize)
+					}
+
 					if st.hasWindowSize {
 						delta := int64(int32(st.windowSize)) - int64(curInitialWindow)
 						curInitialWindow = int32(st.windowSize)
@@ -753,7 +765,11 @@ loop:
 								break loop
 							}
 						}
+					}
 
+					sc.ackSettings()
+
+					if st.hasWindowSize {
 						sc.flushStreams(strms, closeStream)
 					}
 				case FrameWindowUpdate:
@@ -2027,15 +2043,16 @@ func (sc *serverConn) handleSettings(st *Settings) {
 	// peer that had set SETTINGS_HEADER_TABLE_SIZE to 0 saw the encoder go
 	// back to 4096 on its next, unrelated, SETTINGS frame.
 	_ = sc.clientS.Read(st.rawSettings)
-	if verifOn {
-		vAccess(sc, "enc", "rl")
-	}
-	sc.enc.SetMaxTableSize(sc.clientS.HeaderTableSize())
 
-	// The per-stream send windows are adjusted in handleStreams, where the
-	// stream table lives. The connection-level window is not affected by
-	// SETTINGS_INITIAL_WINDOW_SIZE (RFC 7540 6.9.2).
+	// The per-stream send windows and the encoder's table are adjusted in
+	// handleStreams, which owns them, and the acknowledgement is sent from
+	// there once that is done: acknowledging here let a header block encoded
+	// against the old table size go out after the ACK. The connection-level
+	// window is not affected by SETTINGS_INITIAL_WINDOW_SIZE (RFC 7540 6.9.2).
+}
 
+// ackSettings acknowledges a SETTINGS frame whose values have been applied.
+func (sc *serverConn) ackSettings() {
 	fr := AcquireFrameHeader()
 
 	stRes := AcquireFrame(FrameSettings).(*Settings)
